@@ -1126,6 +1126,13 @@ pub fn oracle_c20(ops: &[String], ans: &[String]) -> Fails {
         }
         let id = pu(t[1]);
         match t[0] {
+            "hll.eq" => {
+                // the generator asks for `==` only between a sketch and its round-tripped copy at
+                // moments where both have seen the same operations
+                if ops.first().map(|l| l.contains("c20.roundtrip")).unwrap_or(false) && a != "true" {
+                    fails.push((i, format!("serialise/deserialise round trip is not `==` to the original: {}", a)));
+                }
+            }
             "hll.deser" => {
                 if a == "panic" {
                     fails.push((i, "deserialisation of a corrupted document panicked instead of returning an error".into()));
